@@ -6,6 +6,7 @@ Groups(n) ==
     { [i \in 1..n |-> 10 + i],
       [i \in 1..n |-> IF i % 2 = 1 THEN 7 ELSE 3 + i],
       [i \in 1..(n - 1) |-> IF i <= 2 THEN 5 ELSE 40 + i] }
+OneGroup4 == { [i \in 1..4 |-> IF i = 3 THEN 11 ELSE 10 + i] }
 Groups5 == Groups(5)
 Groups4 == Groups(4)
 Groups6 == Groups(6)
